@@ -63,7 +63,14 @@ func RunCLI(bin, dir string, env []string, args ...string) CLIResult {
 	defer cancel()
 	cmd := exec.CommandContext(ctx, bin, args...)
 	cmd.Dir = dir
+	// coca starts a CPU profile into a fresh $TMPDIR/profile*/ on every invocation and never removes it: give each
+	// invocation a temporary directory of its own (outside the analysed tree) and remove it afterwards
+	tmp, terr := ioutil.TempDir("", "vfcli-")
 	cmd.Env = append(os.Environ(), env...)
+	if terr == nil {
+		cmd.Env = append(cmd.Env, "TMPDIR="+tmp)
+		defer os.RemoveAll(tmp)
+	}
 	var so, se bytes.Buffer
 	cmd.Stdout = &so
 	cmd.Stderr = &se
